@@ -1,5 +1,6 @@
 """E5 - finite flag-predicate analysis and verdict-object rules shared by C01 and C17."""
 import ast
+import re
 import itertools
 
 from .loader import AnalysisError, dotted
@@ -512,5 +513,15 @@ def check_crypto_arm_verdict(rep, prog, rid):
                 rep.check(v is not None and not bad, rid, 'PGPKey.verify', 'library accepts -> recorded %s' % v,
                           'an accepted signature on a non-disqualified key must not be recorded as failing', where=w, found=v,
                           scenario='library verify accepts')
-            rep.check(len(args) > 2 and args[0] == 'sig' and args[2] == 'subj', rid, 'PGPKey.verify', 'record of %s' % (args[:3],),
-                      'the record must name the signature and subject that were examined', where=w)
+            # the pair named in the record is the pair whose hashdata was handed to the key material on this path
+            pairs = set()
+            for s in outs:
+                if not any(c is x or c == x for x in s.calls for c in [(ft, args, kw, line, node)]):
+                    continue
+                for c in s.calls:
+                    if c[0] == 'self._key.verify' and c[1]:
+                        m = re.match(r'^(.+)\.hashdata\((.+)\)$', c[1][0])
+                        if m:
+                            pairs.add((m.group(1), m.group(2)))
+            rep.check(len(args) > 2 and (args[0], args[2]) in pairs, rid, 'PGPKey.verify', 'record of %s' % (args[:3],),
+                      'the record must name the signature and subject that were examined', where=w, expected=sorted(pairs), found=args[:3])
